@@ -55,7 +55,7 @@ func (g *jsGen) expr(d int) string {
 		return g.v()
 	}
 	sub := func() string { return g.expr(d - 1) }
-	switch g.r.Intn(30) {
+	switch g.r.Intn(31) {
 	case 0, 1:
 		return g.prim()
 	case 2, 3:
@@ -149,6 +149,10 @@ func (g *jsGen) expr(d int) string {
 	case 28:
 		g.feat["cycle"] = true
 		return fmt.Sprintf("(function(){var o={a:%s}; o.self=o; o.f=function(){return o}; return o})()", sub())
+	case 29:
+		g.feat["caller"] = true
+		return g.pick("(function g(){return (function f(){return f.caller===g})()})()", fmt.Sprintf("(function(){return %s.caller})()", g.v()),
+			"(function g(){return [1].map(function f(){return String(f.caller).slice(0,12)})[0]})()")
 	default:
 		g.feat["descriptor-read"] = true
 		return fmt.Sprintf("JSON.stringify(Object.getOwnPropertyDescriptor(%s,%s))", g.v(), g.key())
@@ -233,7 +237,7 @@ func (g *jsGen) stmt() string {
 	}
 }
 
-// deviation seeds: the histories after which Copy() is known to go wrong
+// histories after which Copy() used to go wrong (rebound eval, a parameter named `arguments`)
 func (g *jsGen) devStmt() string {
 	g.feat["dev-seed"] = true
 	return g.pick(
@@ -277,7 +281,6 @@ func (g *jsGen) history() string {
 }
 
 func (g *jsGen) mutation() string {
-	g.allowDev = false
 	return g.program(1 + g.r.Intn(8))
 }
 
@@ -299,7 +302,7 @@ func fixedHistories() []string {
 		`var f=new Function("a","return a+1"); var g=eval("(function(){return 2})"); var ge=eval; var h=ge("(function(){return 3})")`,
 		`var fs=[]; [1,2].map(function(x){ fs.push(function(){return x}) })`,
 		"var x=1;\n;;\nvar y=function(){return x};\n;;\nthrow 1;\n;;\nvar z=y",
-		// listed deviations
+		// histories that used to break Copy()
 		`var e=eval; delete eval`,
 		`eval=1`,
 		`var e=eval; eval=function(){return 7}`,
